@@ -80,7 +80,14 @@ _SHAPES = {"gauss": GaussianLine, "zeeman": ZeemanTriplet}
 def make_pmodel(m):
     k = m["kind"]
     if k == "brems":
-        return Bremsstrahlung()
+        from cherab.core.math.integrators import GaussianQuadrature
+        from .mockad import MGaunt
+        kw = {}
+        if m.get("gaunt"):
+            kw["gaunt_factor"] = MGaunt(m["gaunt"])
+        if m.get("quad"):
+            kw["integrator"] = GaussianQuadrature(relative_tolerance=m["quad"])
+        return Bremsstrahlung(**kw)
     el = species_obj(m["el"])
     if k == "trp":
         return TotalRadiatedPower(el, m["q"])
@@ -308,6 +315,16 @@ def apply(s, cfg, op):
         new = dict(m, el=op["el"], q=op["q"], tr=op["tr"])
         s.bmodels[i].line = Line(species_obj(op["el"]), op["q"], tuple(op["tr"]))
         bc["models"][i] = new
+    elif k == "pm_gaunt":
+        from .mockad import MGaunt
+        i = op["i"]
+        pc["models"][i] = dict(pc["models"][i], gaunt=op["tag"])
+        s.pmodels[i].gaunt_factor = MGaunt(op["tag"]) if op["tag"] else None
+    elif k == "pm_quad":
+        from cherab.core.math.integrators import GaussianQuadrature
+        i = op["i"]
+        pc["models"][i] = dict(pc["models"][i], quad=op["v"])
+        s.pmodels[i].integrator = GaussianQuadrature(relative_tolerance=op["v"])
     elif k == "l_transform":
         s.laser.transform = T(op["t"]); cfg["laser"]["transform"] = op["t"]
     elif k == "l_parent":
